@@ -144,7 +144,7 @@ def job_list(ctx):
     for sc in scen:
         for annotated in (1, 0):
             for st in strategies:
-                if quick and len(sc) == 2 and (st == "default_pacbio" or (sc[0][1] != sc[1][1] and st != "all")):
+                if quick and len(sc) == 2 and (st == "default_pacbio" or (sc[0][1] != sc[1][1] and st != "all" and not (st == "default_ont" and sc[1][0] == "Y1"))):
                     continue
                 jobs.append((sc, annotated, st, (), 0, ctx.scratch))
     if not quick:
